@@ -21,7 +21,7 @@ EXTRAS = {"none": [], "p": ["-p", "P"], "p2": ["-p", "two words"], "e": ["-e", "
           "p4": ["-p", "cmake-reference"], "e3": ["-e", "*-removed*"],
           # relative values with an inner slash (they mean what the command line makes of them, nothing else)
           "e4": ["-e", "nested/sub/b.cmake"], "e5": ["--exclude", "sub/deep"]}     # values that contain the characters of a flag     # e+e2 repeat a flag, p3+e repeat a value
-INPUTS = ["file", "flat", "nested", "missing", "badfile", "baddir"]
+INPUTS = ["file", "flat", "nested", "missing", "badfile", "baddir", "linkdir", "linkfile"]
 
 CLI = ("import sys; sys.path.insert(0, %r); import warnings; warnings.filterwarnings('ignore'); import cminx; "
        "cminx.main(sys.argv[1:])")
@@ -36,8 +36,12 @@ def build(box):
                "badfile/bad.cmake": "set(A 1)\nstray text here\nset(B \"unterminated)\n",
                "baddir/a.cmake": good("a"), "baddir/sub/bad.cmake": "function(f\n", "baddir/z.cmake": good("z"),
                "cfg.yaml": "rst:\n  module_path_separator: '/'\n  file_extensions_in_titles: true\n"})
+    # inputs reached through symbolic links (a directory under another name, a file under another base name)
+    os.symlink("nested", box.path("work", "current"))
+    os.makedirs(box.path("work", "links"), exist_ok=True)
+    os.symlink(os.path.join("..", "lone", "file.cmake"), box.path("work", "links", "AcmeTools.cmake"))
     return {"file": "lone/file.cmake", "flat": "flat", "nested": "nested", "missing": "does/not/exist",
-            "badfile": "badfile/bad.cmake", "baddir": "baddir"}
+            "badfile": "badfile/bad.cmake", "baddir": "baddir", "linkdir": "current", "linkfile": "links/AcmeTools.cmake"}
 
 
 def run_case(job):
